@@ -21,7 +21,7 @@ from ..digest import Trace, digest
 PROP = 'C18'
 ENGINE = 'etsim+iosim'
 HASH_CLASSES = 3
-RUNS = {'quick': 1500, 'thorough': 40000}
+RUNS = {'quick': 3000, 'thorough': 40000}
 RUN_TIMEOUT = 90
 DETERMINISM_RUNS = 12
 RULE = ("Each run = one simulated ET run (1-4 restarts, crash/restart "
